@@ -30,8 +30,78 @@ def text(n):
     return "".join(chr(0x61 + (i % 26)) if i % 5 else ("\xe9" if i % 2 else "€") for i in range(n))
 
 
-def body_specs(n):
-    """(label, spec) for every body kind at size n"""
+def cut(seq, lens):
+    """cut `seq` into pieces of the given lengths (the last length repeats); zero lengths are skipped"""
+    out, i, k = [], 0, 0
+    while i < len(seq):
+        m = lens[min(k, len(lens) - 1)]
+        k += 1
+        if m <= 0:
+            if k >= len(lens):
+                m = 1
+            else:
+                continue
+        out.append(seq[i:i + m])
+        i += m
+    return out
+
+
+def stream_scripts(n, bs):
+    """(label, piece lengths) — read scripts over n items for block size bs: where the short reads are"""
+    full = max(n // bs, 0)
+    yield "short-first", [1, bs]                                  # 1, bs, bs, …
+    yield "short-middle", [bs] * max(full // 2, 1) + [max(bs - 1, 1), bs]
+    tail = n - max(full - 1, 0) * bs if full else n                # last short read just before the end
+    yield "short-last", [bs] * max(full - 1, 0) + [max(tail - 1, 1), 1]
+    yield "all-short", [max(bs - 1, 1)]
+    yield "long-pieces", [bs + 1]                                  # cut by read(bs) into bs + 1
+    yield "ones", [1] * 3 + [max(bs // 2, 1), 2, bs]
+
+
+def stream_specs(n, bs):
+    d, t = data(n), text(n)
+
+    def b(lens, seq=d):
+        return [hx(p) for p in cut(seq, lens)]
+
+    for label, lens in stream_scripts(n, bs):
+        yield f"stream-{label}", ["stream", False, "ok", "ok", 0, b(lens)]
+    mid = [bs] * max(n // bs // 2, 1) + [max(bs - 1, 1), bs]
+    for off in sorted({min(1, n), n // 2, max(n - 1, 0), n}):
+        yield f"stream@{off}", ["stream", False, "ok", "ok", off, b(mid)]
+    yield "textstream-short-first", ["stream", True, "ok", "ok", 0, cut(t, [1, bs])]
+    yield "textstream-short-middle", ["stream", True, "ok", "ok", min(1, n), cut(t, mid)]
+    yield "textstream-all-short", ["stream", True, "ok", "ok", 0, cut(t, [max(bs - 1, 1)])]
+    # an empty read() result is end-of-file, whatever the object would deliver afterwards
+    yield "stream-eof-marker", ["stream", False, "ok", "ok", 0, b(mid, d[:n // 2 + 1]) + ["", hx(d[n // 2 + 1:] or b"x")]]
+    yield "stream-no-tell", ["stream", False, "ok", "absent", 0, b(mid)]
+    yield "stream-no-tell-no-seek", ["stream", False, "absent", "absent", min(1, n), b(mid)]
+    yield "stream-tell-raises", ["stream", False, "ok", "raises", 0, b(mid)]
+    yield "stream-seek-raises", ["stream", False, "raises", "ok", min(1, n), b(mid)]
+    yield "stream-tell-no-seek", ["stream", False, "absent", "ok", 0, b(mid)]
+    yield "textstream-no-tell", ["stream", True, "ok", "absent", 0, cut(t, mid)]
+
+
+def random_stream(rng, n, bs):
+    """a random read script over n items: piece sizes around the block size, short pieces anywhere"""
+    is_text = rng.random() < 0.3
+    seq = text(n) if is_text else data(n)
+    sizes = [1, 2, max(bs - 1, 1), bs, bs, bs + 1, 2 * bs, max(bs // 2, 1)]
+    pieces, i = [], 0
+    while i < n:
+        m = rng.choice(sizes)
+        pieces.append(seq[i:i + m])
+        i += m
+    if pieces and rng.random() < 0.1:                # an early empty read: end-of-file there
+        pieces.insert(rng.randrange(len(pieces) + 1), seq[:0])
+    avail = lambda: rng.choice(["ok", "ok", "ok", "ok", "absent", "raises"])
+    pos = rng.choice([0, 0, min(1, n), rng.randint(0, n)])
+    label = ("textstream" if is_text else "stream") + "-random"
+    return label, ["stream", is_text, avail(), avail(), pos, pieces if is_text else [hx(p) for p in pieces]]
+
+
+def body_specs(n, bs=16):
+    """(label, spec) for every body kind at size n (read scripts of streams relative to block size bs)"""
     d, t = data(n), text(n)
     yield "none", ["none"]
     yield "bytes", ["bytes", hx(d)]
@@ -55,13 +125,14 @@ def body_specs(n):
     yield "generator", ["iter", True, [["b", hx(d[:1])], ["b", ""], ["b", hx(d[1:])]]]
     yield "generator-str", ["iter", True, [["s", t]]]
     yield "empty-list", ["iter", False, []]
+    yield from stream_specs(n, bs)
 
 
 def body_class(spec):
     k = spec[0]
     if k == "iter":
         return "one-shot-iterable" if spec[1] else "re-iterable"
-    if k == "file":
+    if k in ("file", "stream"):
         seek, tell = spec[2], spec[3]
         if tell == "absent":
             return "file-without-tell"
@@ -94,7 +165,11 @@ class C11(Prop):
     id = "C11"
     model = "wire"
     rule = ("body kinds {None, bytes, str, bytearray, memoryview, array('B'), array('H'), binary/text files (seekable at "
-            "start offsets {0,1,n/2,n}, without tell, tell raising, seek raising, tell without seek, neither), lists "
+            "start offsets {0,1,n/2,n}, without tell, tell raising, seek raising, tell without seek, neither), binary/text "
+            "STREAMS whose read(blocksize) returns short per a read script (short read first / in the middle / just "
+            "before the end, all reads short, pieces longer than the block size, single items, an early empty read, "
+            "start offsets inside a piece, the same seek/tell variants; random scripts with piece sizes around the "
+            "block size), lists "
             "with empty chunks / str chunks / mixed, one-shot generators, empty list} x sizes {0,1,bs-1,bs,bs+1,large} "
             "(bs=16; thorough also bs=16384) x methods {GET,HEAD,DELETE,OPTIONS,TRACE,POST,PUT,PATCH,FOO} x chunked flag "
             "on HTTPConnection.request; x attempt histories {ok, connect-error, read-error, 503, 301/302/307/308, 303}* "
@@ -148,8 +223,10 @@ class C11(Prop):
         # 3. default blocksize boundaries
         big = 16384
         for size in ([big - 1, big, big + 1] + ([40000] if deep else [])):
-            for label, spec in body_specs(size):
-                if label in ("bytes", "str", "file@0", "textfile@0", "generator", "list", "file-no-tell"):
+            for label, spec in body_specs(size, big):
+                if label in ("bytes", "str", "file@0", "textfile@0", "generator", "list", "file-no-tell",
+                             "stream-short-first", "stream-short-middle", "stream-short-last", "stream-long-pieces",
+                             "textstream-short-middle"):
                     yield {"level": "conn", "meth": "PUT", "body": spec, "label": label, "chunked": False, "bs": big,
                            "hist": "o", "headers": [], "size": size}
                     if deep:
@@ -158,11 +235,15 @@ class C11(Prop):
         # 4. random
         for _ in range(30000 if deep else 1500):
             size = rng.choice(sizes + [2, 5, 33])
-            label, spec = rng.choice(list(body_specs(size)))
+            rbs = rng.choice([1, 4, 16, 17])
+            if rng.random() < 0.35:
+                label, spec = random_stream(rng, size, rbs)
+            else:
+                label, spec = rng.choice(list(body_specs(size, rbs)))
             level = rng.choice(["conn", "pool", "manager"])
             h = "o" if level == "conn" else rng.choice(hists)
             yield {"level": level, "meth": rng.choice(METHODS[:-1] if level != "conn" else METHODS), "body": spec,
-                   "label": label, "chunked": rng.random() < 0.4, "bs": rng.choice([1, 4, 16, 17]), "hist": h,
+                   "label": label, "chunked": rng.random() < 0.4, "bs": rbs, "hist": h,
                    "headers": rng.choice([[], [["Content-Type", "a/b"]], [["X-A", "1"], ["Content-Language", "en"]]]),
                    "size": size}
 
